@@ -679,8 +679,14 @@ func checkFresh(t ev.T, test string, c FreshCase) {
 	beganOf := map[string]time.Time{} // per contender: when its current call began
 	box.Backend.After = func(op *fsx.Op) {
 		if op.Client == "holder" && op.Kind == "chtimes" && op.Err == "" && strings.HasPrefix(op.Path, lockDir) {
+			// a sign of life is as old as the stamp it carries: on a stalling machine the holder may be held up between reading
+			// the clock and setting the stamp, which observers then see as old as it says
+			at := time.Unix(0, op.End)
+			if st := time.Unix(0, op.ModTime); op.ModTime != 0 && st.Before(at) {
+				at = st
+			}
 			smu.Lock()
-			signs = append(signs, time.Unix(0, op.End))
+			signs = append(signs, at)
 			smu.Unlock()
 		}
 		if op.Client != "holder" && (op.Kind == "remove" || op.Kind == "removeall") && op.Path == lockDir && op.Err == "" {
